@@ -303,6 +303,77 @@ fn history_case(i: u64, seed: u64, out: &mut CaseOut) {
     }
 }
 
+/// A replica expires *every* task it holds while the server keeps a snapshot taken before the purge
+/// and another replica has edited one of the tasks: the purged tasks must stay gone everywhere —
+/// in particular the now task-less replica must not take the old snapshot back in.
+fn purge_all_case(i: u64, seed: u64, out: &mut CaseOut) {
+    let mut rng = Rng::derive(seed, "c20-purge-all", i);
+    let replay = json!({"stratum": "purge-all", "index": i});
+    let chain = ChainRef::new();
+    let kind = if rng.chance(1, 4) { StoreKind::Sqlite } else { StoreKind::Mem };
+    let mut reps: Vec<R> = vec![new_replica(0, kind, &chain), new_replica(1, StoreKind::Mem, &chain)];
+    let tasks: Vec<Uuid> = (0..(1 + rng.below(4))).map(|_| rng.uuid()).collect();
+    let mut abs = vec![];
+    for u in &tasks {
+        abs.push(AbsOp::Set(*u, "status".into(), "deleted".into(), ts(1)));
+        abs.push(AbsOp::Set(*u, "modified".into(), (now() - (200 + rng.below(1000) as i64) * DAY).to_string(), ts(1)));
+        abs.push(AbsOp::Set(*u, "description".into(), "old".into(), ts(1)));
+    }
+    let ops = concretise(&mut reps[0].rep, &abs).unwrap_or_default();
+    if block_on(reps[0].rep.commit_operations(ops)).is_err() {
+        out.inconclusive = Some("setup commit failed".into());
+        return;
+    }
+    // the server asks for a snapshot, so one exists from before the purge
+    chain.0.borrow_mut().urgency_default = taskchampion::server::SnapshotUrgency::High;
+    if let Err(e) = quiesce(&mut reps, &chain, 6) {
+        out.violate("quiescence".to_string(), e, replay);
+        return;
+    }
+    chain.0.borrow_mut().urgency_default = taskchampion::server::SnapshotUrgency::None;
+    if chain.0.borrow().snapshots.is_empty() {
+        out.inconclusive = Some("no snapshot was uploaded".into());
+        return;
+    }
+    // a concurrent edit elsewhere
+    if rng.chance(2, 3) {
+        let u = *rng.pick(&tasks);
+        let ops = concretise(&mut reps[1].rep, &[AbsOp::Set(u, "status".into(), "pending".into(), ts(60)), AbsOp::Set(u, "modified".into(), now().to_string(), ts(60))]).unwrap_or_default();
+        let _ = block_on(reps[1].rep.commit_operations(ops));
+    }
+    let Some(purged) = check_expire(&mut reps[0], out, &replay) else { return };
+    if purged.len() != tasks.len() {
+        out.inconclusive = Some("not every task was purged".into());
+        return;
+    }
+    let order: Vec<usize> = if rng.chance(1, 2) { vec![0, 1] } else { vec![1, 0] };
+    for k in &order {
+        if let Err(e) = sync(&mut reps[*k], &chain, false) {
+            out.violate("sync-error".to_string(), format!("{e:#}"), replay);
+            return;
+        }
+    }
+    if let Err(e) = quiesce(&mut reps, &chain, 8) {
+        out.violate("quiescence".to_string(), e, replay);
+        return;
+    }
+    for r in reps.iter_mut() {
+        let t = block_on(model::replica_tasks(&mut r.rep)).unwrap_or_default();
+        for u in &purged {
+            if t.contains_key(u) {
+                out.violate("purged-task-came-back/after-purging-everything".to_string(), format!("sync order {order:?}: task {} is back on replica {} as {:?} (the server held a snapshot from before the purge)", model::su(*u), r.id, t.get(u)), replay);
+                return;
+            }
+        }
+    }
+    if let Err(e) = check_converged(&mut reps, &chain) {
+        out.violate("diverged-at-quiescence".to_string(), e, replay);
+        return;
+    }
+    out.count("purge_everything_cases", 1);
+    out.nontrivial = Some(fnv(format!("purge-all{i}").as_bytes()));
+}
+
 pub fn run(ctx: &Ctx) -> Outcome {
     let mut acc = Acc::default();
     let seed = ctx.seed;
@@ -329,13 +400,22 @@ pub fn run(ctx: &Ctx) -> Outcome {
             out
         });
     }
+    if want("purge-all") {
+        let (lo, hi) = range(ctx.tier.pick(200, 10_000));
+        run_cases(&mut acc, "purge-all", hi - lo, |i| {
+            let mut out = CaseOut::new();
+            purge_all_case(i + lo, seed, &mut out);
+            out
+        });
+    }
     if only.is_none() {
+        acc.require("purge_everything_cases", 20, "too few cases in which a replica purged everything it held");
         acc.require("tasks_purged", 50, "too few purged tasks");
         acc.require("purged_with_concurrent_edit", 50, "too few purges with a concurrent edit elsewhere");
     }
     Outcome {
         level: "exploration",
-        rule: "dictionary: every status x every boundary `modified` value (cut-off ±5 s / ±1 h / ±1 d, future, missing, empty, non-numeric, signed, overflow, out-of-calendar), both storages, before/after sync, judged by the independent predicate; histories: 2-3 replicas share tasks, others edit them concurrently (status back to pending, modified refreshed, description changed/removed), one or two replicas expire, random sync order to quiescence, purge must travel as Delete operations and the task must be gone everywhere; non-trivial = a purged task had a concurrent edit; distinct by case".into(),
+        rule: "dictionary: every status x every boundary `modified` value (cut-off ±5 s / ±1 h / ±1 d, future, missing, empty, non-numeric, signed, overflow, out-of-calendar), both storages, before/after sync, judged by the independent predicate; histories: 2-3 replicas share tasks, others edit them concurrently (status back to pending, modified refreshed, description changed/removed), one or two replicas expire, random sync order to quiescence, purge must travel as Delete operations and the task must be gone everywhere; purge-all: a replica purges every task it holds while the server keeps a pre-purge snapshot; non-trivial = a purged task had a concurrent edit; distinct by case".into(),
         exhaustive: None,
         acc,
         assumptions: vec![
